@@ -437,6 +437,11 @@ def delegation(chk, lab):
         target = "<%s<'_, P> as %sCleanUp>::%s" % (MAPPED, MP, meth)
         forward(chk, lab, outer, target, None, None, cleanup=meth)
     chk.floor('OffsetPageTable trait methods', n + 3, 24)
+    phys_offset_rule(chk, I)
+
+
+def phys_offset_rule(chk, I, rule='delegation'):
+    """PhysOffset::frame_to_pointer = offset + frame address (what makes an OffsetPageTable read the tables where they are)"""
     # PhysOffset::frame_to_pointer = offset + frame address
     fn_ = '<%soffset_page_table::PhysOffset as %smapped_page_table::PageTableFrameMapping>::frame_to_pointer' % (MP, MP)
     st = State()
@@ -452,7 +457,7 @@ def delegation(chk, lab):
         a = I.exact_aff(rets[0].st, I.norm(rets[0].st, rets[0].val.addr))
         want = I.aff_of(rets[0].st, I.resub(rets[0].st, inner(off))).add(I.aff_of(rets[0].st, inner(fr)))
         ok = I.aff_equal(rets[0].st, a, want)
-    chk.ob('delegation', 'PhysOffset::frame_to_pointer = physical-memory offset + frame address', ok and all(o.kind == 'panic' for o in outs if o not in rets), 'paths %r' % (outs,), fn_site(I, fn_))
+    chk.ob(rule, 'PhysOffset::frame_to_pointer = physical-memory offset + frame address', ok and all(o.kind == 'panic' for o in outs if o not in rets), 'paths %r' % (outs,), fn_site(I, fn_))
 
 
 def same_arg(x, y):
